@@ -29,9 +29,26 @@ CELL_FAULTS = ["unknown-tag", "extension-forbidden", "requires-child", "bad-unit
                "stray-placeholder", "taggroup-outside-group"]
 
 
+HOSTILE_ALPHA = ["Red", "Blue", " ", ",", "(", ")", "/"]
+
+
+def hostile_cells(maxlen):
+    import itertools
+    out = []
+    for ln in range(1, maxlen + 1):
+        for t in itertools.product(HOSTILE_ALPHA, repeat=ln):
+            s = "".join(t)
+            if s.strip():
+                out.append(s)
+    return out
+
+
 def shards(tier, seed):
     n = {"quick": 800, "thorough": 40000}[tier]
-    return [dict(n=50, stream=i, version=VERSIONS[(i // 50) % len(VERSIONS)], perms=2 if tier == "quick" else 4)
+    cells = len(hostile_cells(4 if tier == "quick" else 5))
+    hostile = [dict(kind="hostile", start=i, stop=min(i + 400, cells), maxlen=4 if tier == "quick" else 5, n=0,
+                    version="8.3.0", perms=0, stream=-1 - i) for i in range(0, cells, 400)]
+    return hostile + [dict(n=50, stream=i, version=VERSIONS[(i // 50) % len(VERSIONS)], perms=2 if tier == "quick" else 4)
             for i in range(0, n, 50)]
 
 
@@ -275,7 +292,7 @@ def check_nonames(case, rec):
         issues = obj.validate(schema)
     except Exception as ex:  # noqa
         rec.violation(f"validation of a spreadsheet without column names raised {type(ex).__name__}", case,
-                      key="sort-issues-mixed-types" if type(ex).__name__ == "TypeError" else None)
+                      key={"TypeError": "sort-issues-mixed-types", "IndexError": "duplicate-empty-groups"}.get(type(ex).__name__))
         return
     rec.mon("no-exception")
     rec.mon("location-well-formed", len(issues))
@@ -294,7 +311,23 @@ def check_nonames(case, rec):
                 return
 
 
+def run_hostile(shard, rec):
+    """Every string over a small delimiter alphabet as a cell: file validation must not raise."""
+    cells = hostile_cells(shard["maxlen"])[shard["start"]:shard["stop"]]
+    for i in range(0, len(cells), 40):
+        chunk = cells[i:i + 40]
+        for two in (False, True):
+            rows = [[c, chunk[(k * 7 + 3) % len(chunk)]] if two else [c] for k, c in enumerate(chunk)]
+            case = dict(kind="spreadsheet-nonames", rows=rows, tagcols=[0, 1] if two else [0], version=shard["version"])
+            check_nonames(case, rec)
+        rec.bulk(len(chunk) * 2, len(chunk) * 2)
+    rec.count("input-kind", "hostile-cells", len(cells))
+
+
 def run_shard(shard, rec):
+    if shard.get("kind") == "hostile":
+        run_hostile(shard, rec)
+        return
     rng = rec.rng
     rng.seed(f"c07-{shard['stream']}-{rng.random()}")
     gen = annot.AnnotGen(schema_xml.load(shard["version"]), rng)
